@@ -95,7 +95,12 @@ def step (st : St) (op : String) : St :=
   match words op with
   | ["S", i, v, pa] =>
     match i.toNat?, v.toNat?, (if pa == "n" then some none else if pa == "t" then some (some true) else if pa == "f" then some (some false) else none) with
-    | some i, some v, some pa => doSet st i v pa
+    | some i, some v, some pa =>
+      -- spec: an accessor without a setter rejects [[Set]]; goja consults a stale `writable` flag
+      let q := match Store.getOwn st.s i with
+        | some (.prop p) => if p.accessor && p.writable && p.setter.isNone && st.quirk == "-" then "stale-writable" else st.quirk
+        | _ => st.quirk
+      { doSet st i v pa with quirk := q }
     | _, _, _ => { st with bad := true }
   | ["L", l] =>
     match l.toNat? with
